@@ -103,7 +103,19 @@ impl Sys for Sys10 {
         if cfg.model == ModelId::Fixed43 {
             // hard-wired panel: init programmed 0x00 whatever the options; set_orientation may only touch bits 7..5
             let want = madctl_spec(false, o, 0);
-            if !hist.is_empty() && rig.ctl.madctl != want {
+            // a driver may skip the command when the requested orientation is the one it already holds: the device
+            // then keeps what it had (0x00 from init as long as no call changed the orientation)
+            let mut ok_vals = vec![0x00u8];
+            let mut cur = cfg.orient;
+            for &h in hist {
+                let h = h as u8;
+                if h != cur {
+                    ok_vals.clear();
+                    cur = h;
+                }
+                ok_vals.push(madctl_spec(false, h, 0));
+            }
+            if !hist.is_empty() && !ok_vals.contains(&rig.ctl.madctl) {
                 return (key, Some(format!(
                     "set_orientation/foreign-bits|model programmed MADCTL 00 at init; after set_orientation({o}) the device has {:02x}, only the orientation bits may change (expected {want:02x})",
                     rig.ctl.madctl
